@@ -1,6 +1,7 @@
 import HdVerif.Proofs.PMap
 import HdVerif.Generated.T19t
 import HdVerif.Generated.T19q
+import HdVerif.Generated.T19f
 /-! C19: hand-written parts of `Model/PMap.lean` use exactly the expressions of the current source (regenerated as
 `Generated/T19t.lean` from `pm/sop.py` and `Generated/T19q.lean` from `pixels.py` on every run): the rank / count guards of the
 constructor, the base and the match taken for a Dimension Index Value, the subscript / attribute / order of the real-world value
@@ -62,5 +63,20 @@ theorem select_tie (ms : List Mapping) (k : Int) (s : String) :
   refine ⟨?_, rfl, rfl, rfl⟩
   have : rwvmSelectSubscript k = k := by unfold rwvmSelectSubscript; omega
   rw [this]
+
+/-- **bridge, read entry points**: the model's `readReal o f sel` gives the mapping search the caller's selector and the frame's own
+    index.  On the regenerated forwarding table of `image.py`: every call that is handed the selector / the real-world flag is handed
+    the caller's own (no row passes anything else, none omits them); `get_frame` builds its transform for `frame_index`, which is the
+    standardised (`as_index`-aware) index; `get_frames` and `_get_pixels_by_frame` build the per-frame transform for the loop's
+    `frame_index`; `get_volume` reaches the transform through `_get_pixels_by_frame`. -/
+theorem read_forwarding_tie :
+    (∀ r ∈ pmReadForwarding, (r.2.2.1 = "real_world_value_map_selector" ∨ r.2.2.1 = "apply_real_world_transform") → r.2.2.2 = r.2.2.1) ∧
+    ("get_frame", "_CombinedPixelTransform#0", "frame_index", "frame_index") ∈ pmReadForwarding ∧
+    ("get_frame", "local", "frame_index", "self._standardize_frame_index(frame_number, as_index)") ∈ pmReadForwarding ∧
+    ("get_frames", "_CombinedPixelTransform#1", "frame_index", "frame_index") ∈ pmReadForwarding ∧
+    ("_get_pixels_by_frame", "_CombinedPixelTransform#1", "frame_index", "frame_index") ∈ pmReadForwarding ∧
+    ("get_volume", "_get_pixels_by_frame#0", "real_world_value_map_selector", "real_world_value_map_selector") ∈ pmReadForwarding ∧
+    (pmReadForwarding.filter (fun r => r.2.2.1 == "real_world_value_map_selector")).length = 6 := by
+  decide
 
 end HdVerif.PMap
